@@ -462,7 +462,7 @@ class Namespace:
     def _end_generator(self):
         value = self.pop("generator")
         context = self._get_context()
-        if "generator_detail" in context:
+        if isinstance(context.get("generator_detail"), dict):
             context["generator_detail"]["name"] = value
 
     def _start_summary(self, attrs_d):
